@@ -15,6 +15,10 @@ Proof. intros A B g. induction a as [|x r IH]; intros [|y ys]; cbn; try reflexiv
 Lemma existsb_map : forall {A} (p : A -> bool) (g : A -> A) l, (forall x, p (g x) = p x) -> existsb p (map g l) = existsb p l.
 Proof. intros A p g l Hp. induction l as [|x r IH]; cbn; [reflexivity|]. rewrite Hp, IH. reflexivity. Qed.
 
+Lemma filter_keep_map : forall {B} (g : B -> B) (keep : list (bool * B)),
+  map (@snd _ _) (filter (@fst _ _) (map (fun p : bool * B => (fst p, g (snd p))) keep)) = map g (map (@snd _ _) (filter (@fst _ _) keep)).
+Proof. intros B g. induction keep as [|[b x] r IH]; [reflexivity|]. cbn [map filter fst snd]. destruct b; cbn [map snd]; rewrite IH; reflexivity. Qed.
+
 #[local] Arguments chain : simpl never.
 #[local] Arguments is_const : simpl never.
 #[local] Arguments const_alloc : simpl never.
@@ -146,9 +150,9 @@ Proof.
   - (* a function defined by def *)
     change (Func [] [] [] 0) with dflt_func. rewrite (func_args_sim _ _ _ _ HS id).
     set (formals := f_args (nth id (funcs st) dflt_func)).
-    match goal with |- rsim _ (rbind (?go _ _ _ _) _) (rbind (?go' _ _ _ _) _) =>
-      assert (Hgo : forall l i acc s0 s0', sim s0 s0' -> rsim (fun e e' => e' = rn_env e) (go l i acc s0) (go' l i (rn_env acc) s0')) end.
-    { induction l as [|[[k|] e] r IH]; intros i acc s0 s0' H0; simpl.
+    match goal with |- rsim _ (rbind (?go _ _ _ _) _) (rbind (?go' _ _ _ _) _) => set (G := go); set (G' := go') end.
+    assert (Hgo : forall l i acc s0 s0', sim s0 s0' -> rsim (fun e e' => e' = rn_env e) (G l i acc s0) (G' l i (rn_env acc) s0')).
+    { induction l as [|[[k|] e] r IH]; intros i acc s0 s0' H0; unfold G, G'; simpl; fold G; fold G'.
       - split; [reflexivity|exact H0].
       - rewrite (existsb_map (fun a : str * fdefault => str_eqb (fst a) k) rn_arg) by (intros; reflexivity).
         destruct (existsb _ _); [|reflexivity].
@@ -236,9 +240,7 @@ Proof.
           eapply rsim_bind; [exact (Hcall [x] s0 s0' H0)|]. intros r s' r' s'' Hr H'. cbv beta match. rsubst.
           rewrite (truthy_sim _ _ _ _ H'). split; [reflexivity|exact H'].
         - intros keep s2 keep' s2' Hkeep H2. cbv beta match. rsubst.
-          assert (Hout : map (@snd _ _) (filter (@fst _ _) (map (fun p : bool * value => (fst p, rn (snd p))) keep)) =
-                         map rn (map (@snd _ _) (filter (@fst _ _) keep))).
-          { induction keep as [|[b x] r IH]; [reflexivity|]. cbn [map filter fst snd]. destruct b; cbn [map snd]; rewrite IH; reflexivity. }
+          pose proof (filter_keep_map rn keep) as Hout.
           rewrite Hout. destruct (map (@snd _ _) (filter (@fst _ _) keep)) as [|o1 orest]; [split; [reflexivity|exact H2]|].
           change (map rn (o1 :: orest)) with (rn o1 :: map rn orest). cbv beta match.
           change (rn o1 :: map rn orest) with (map rn (o1 :: orest)). rewrite !map_length.
@@ -248,8 +250,23 @@ Proof.
           unfold alloc_list in Ha. rewrite map_length in Ha. exact Ha. }
       (* reduce *)
       destruct l as [|x r]; [apply (ret_val W defs (nth 2 vals VNone)); exact H1|].
-      match goal with |- rsim _ (let '(acc0, rest) := _ in ?go rest acc0 s1) _ =>
-        assert (Hgo2 : forall l0 acc s0 s0', sim s0 s0' -> rsim vR (go l0 acc s0) (go (map rn l0) (rn acc) s0')) end.
+      assert (Hgo2 : forall l0 acc s0 s0', sim s0 s0' -> rsim vR
+                ((fix go (l0 : list value) (acc : value) (st0 : state) : res (value * state) :=
+                    match l0 with
+                    | [] => Ok (acc, st0)
+                    | y :: r0 =>
+                        rbind (if Nat.ltb (length (f_args (nth fid (funcs st0) dflt_func))) (length [acc; y]) then Err EType
+                               else run_func Asp defs f fid (combine (map (@fst _ _) (f_args (nth fid (funcs st0) dflt_func))) [acc; y]) st0)
+                              (fun '(acc', st') => go r0 acc' st')
+                    end) l0 acc s0)
+                ((fix go (l0 : list value) (acc : value) (st0 : state) : res (value * state) :=
+                    match l0 with
+                    | [] => Ok (acc, st0)
+                    | y :: r0 =>
+                        rbind (if Nat.ltb (length (f_args (nth (shf fid) (funcs st0) dflt_func))) (length [acc; y]) then Err EType
+                               else run_func Asp defs f (shf fid) (combine (map (@fst _ _) (f_args (nth (shf fid) (funcs st0) dflt_func))) [acc; y]) st0)
+                              (fun '(acc', st') => go r0 acc' st')
+                    end) (map rn l0) (rn acc) s0')).
       { induction l0 as [|y r0 IH]; intros acc s0 s0' H0.
         - apply ret_val. exact H0.
         - change (map rn (y :: r0)) with (rn y :: map rn r0). simpl.
